@@ -14,6 +14,7 @@ def check_case(rep, case, name):
         rep.dev(name, case, 'exception %r' % (e,), 'a potential'); return
     regular_at_0 = t[0] == 'leaf' and t[1] in ('polynomial', 'constant', 'zero', 'morse', 'exp_spline', 'bornmayer')
     for x in case['rs']:
+        if x != 0.0 and x < min_r(t): continue
         if x == 0.0 and regular_at_0:
             # forms that are regular at the origin: value and offered derivatives exist there
             try:
